@@ -1,8 +1,11 @@
 //! anydb-verif: runtime monitors for the properties in /verif/properties.jsonl.
 //! Usage: anydb-verif <PROPERTY> [--tier quick|thorough] [--replay <path>]
 
+mod c_crash;
 mod c_raw;
 mod common;
+mod crash;
+mod obs;
 mod rawmodel;
 
 use std::{path::PathBuf, time::Instant};
@@ -63,9 +66,18 @@ fn main() {
         budget,
     };
     common::install_quiet_panic_hook();
+    obs::install();
     let code = match prop.as_str() {
         "C01" => c_raw::check_c01(&ctx),
         "C02" => c_raw::check_c02(&ctx),
+        "C05" => c_crash::check_c05(&ctx),
+        "C12" => c_crash::check_c12(&ctx),
+        "C13raw" => {
+            let report = common::Report::new("C13");
+            let c = c_raw::c13_raw_campaign(&ctx, &report, ctx.secs(10.0, 60.0));
+            println!("{}", c.stats.to_json());
+            report.finish(&ctx, "exploration", serde_json::json!({"evaluations": c.histories, "distinct_nontrivial": c.nontrivial.len(), "rule": "x", "samples": c.samples}), &[])
+        }
         other => {
             eprintln!("unknown property '{other}'");
             2
